@@ -257,3 +257,51 @@ Proof.
     apply mk_part_valid. constructor; [exact Hv'|constructor].
   - cbn. numR'. lra.
 Qed.
+
+(* ---------- rejected index expressions ---------- *)
+Definition is_int (it : item) : bool := match it with IInt _ => true | _ => false end.
+Lemma norm_ints_no_int (its : bool) (l : list item) : forall shape,
+  existsb is_int l = false -> norm_ints its l shape = Ok l.
+Proof.
+  induction l as [|it l IH]; intros shape Hs; [destruct shape; reflexivity|].
+  cbn [existsb] in Hs. apply orb_false_iff in Hs. destruct Hs as [H1 H2].
+  destruct shape as [|n shape]; [reflexivity|].
+  destruct it; try discriminate; cbn [norm_ints]; rewrite IH by exact H2; reflexivity.
+Qed.
+(* more than one Ellipsis: ValueError *)
+Lemma norm_index_two_ellipses (its : bool) (a b c : list item) (shape : list Z) :
+  norm_index (ETuple (a ++ IEll :: b ++ IEll :: c)) shape its = ValueErr.
+Proof.
+  unfold norm_index, norm_index_list, items_of.
+  set (l0 := a ++ IEll :: b ++ IEll :: c).
+  assert (He : existsb is_ell l0 = true).
+  { unfold l0. rewrite existsb_app. cbn [existsb is_ell]. rewrite orb_true_r. reflexivity. }
+  rewrite He. cbn [negb]. rewrite andb_false_r. cbv iota. rewrite He.
+  assert (Hc : (1 <? length (filter is_ell l0))%nat = true).
+  { unfold l0. rewrite filter_app. cbn [filter is_ell]. rewrite filter_app. cbn [filter is_ell].
+    rewrite !app_length. cbn [length]. rewrite app_length. cbn [length]. apply Nat.ltb_lt. lia. }
+  rewrite Hc. reflexivity.
+Qed.
+(* no integers, no Ellipsis, at least ndim entries, the "empty axes" test passes:
+   a None entry is a ValueError, otherwise more entries than axes is an IndexError *)
+Lemma norm_index_new_axis (its : bool) (l : list item) (shape : list Z) :
+  existsb is_int l = false -> existsb is_ell l = false -> (length shape <= length l)%nat ->
+  empty_slice_check l shape = false -> existsb is_new l = true ->
+  norm_index (ETuple l) shape its = ValueErr.
+Proof.
+  intros Hi He Hl Hc Hn. unfold norm_index, norm_index_list, items_of.
+  replace (length l <? length shape)%nat with false by (symmetry; apply Nat.ltb_ge; exact Hl).
+  cbn [andb]. rewrite He. cbn [bind]. rewrite norm_ints_no_int by exact Hi. cbn [bind].
+  rewrite Hc, Hn. reflexivity.
+Qed.
+Lemma norm_index_too_many (its : bool) (l : list item) (shape : list Z) :
+  existsb is_int l = false -> existsb is_ell l = false -> (length shape < length l)%nat ->
+  empty_slice_check l shape = false -> existsb is_new l = false ->
+  norm_index (ETuple l) shape its = IndexErr.
+Proof.
+  intros Hi He Hl Hc Hn. unfold norm_index, norm_index_list, items_of.
+  replace (length l <? length shape)%nat with false by (symmetry; apply Nat.ltb_ge; lia).
+  cbn [andb]. rewrite He. cbn [bind]. rewrite norm_ints_no_int by exact Hi. cbn [bind].
+  rewrite Hc, Hn. replace (length shape <? length l)%nat with true by (symmetry; apply Nat.ltb_lt; exact Hl).
+  reflexivity.
+Qed.
